@@ -223,6 +223,21 @@ example : isValid Gen.BlsFq.MODULUS Gen.BlsFq.MODULUS = false ∧
 `r - 2` (Fermat inversion). -/
 theorem jubjub_invert_chain_exponent : jubjubInvertExponent = jubjubFrP - 2 := by decide +kernel
 
+/-- KNOWN FINDING (`curve25519.Fp:lexicographically_largest:(p-1)/2`): `curve25519/fp.rs`
+compares with `HALF_MODULUS = (p-1)/2` using "no borrow" (`≥`), so both `x = (p-1)/2` and
+`-x = (p+1)/2` are reported lexicographically largest, while `x < -x`. The limb model of the code
+reproduces it; for the neighbouring values the answer is the specified one. -/
+theorem c25519_lex_largest_defect :
+    let mont := fun v => L4.ofNat (v * (2 ^ 256 % c25519FpP) % c25519FpP)
+    let half := (L4.ofList Gen.C25519Fp.HALF_MODULUS).getD L4.zero
+    lexLargestC c25519Params half (mont ((c25519FpP - 1) / 2)) = true ∧
+    lexLargestC c25519Params half (mont ((c25519FpP + 1) / 2)) = true ∧
+    lexLargest c25519FpP ((c25519FpP - 1) / 2) = false ∧
+    lexLargestC c25519Params half (mont ((c25519FpP - 1) / 2 - 1)) = false ∧
+    lexLargestC c25519Params half (mont 0) = false ∧
+    lexLargestC c25519Params half (mont (c25519FpP - 1)) = true := by
+  decide +kernel
+
 /-! ## Extension towers: the formulas are the products of the quotient rings -/
 
 section Tower
